@@ -40,6 +40,10 @@ def run(tier, seed, t0):
     summ = json.loads(vlib.run_harness(["c11", data + ".rows", out, seed, nrandom]))
     events, mism, r = vlib.judge_trace("Trace_C11", os.path.join(out, "c11.events.ndjson"))
     vlib.classify(v, events, mism, describe)
+    for l in open(os.path.join(out, "c11.float.ndjson")):
+        e = json.loads(l)
+        v.violation({"property": PID, "event": e, "what": "%s over the positions %s: Rect() = %s, Center() = %s; the tight box is (min, max) of the values and its "
+                     "midpoint, rounded to the nearest float64, is %s" % (e["kind"], e["points"], e["rect"], e["center"], e["exact_center"])})
     rc = v.finish()
     row = json.loads(open(data + ".rows").readlines()[4321])
     cov = {
@@ -53,10 +57,14 @@ def run(tier, seed, t0):
                 "trees of all kinds (closed/unclosed/holed polygons, Rect, Multi*, single-child and nested collections, empties mixed "
                 "with non-empties, Features); L1 Empty/Rect/Center/Valid/NumPoints are printed and ObjectsImpl is compared with "
                 "Objects (T4obj). distinct_nontrivial = distinct generated object trees. Each tree is built through the constructors "
-                "under 3 index configurations and through Parse of an independently rendered text under 4 option sets" % BOUNDS[tier],
+                "under 3 index configurations and through Parse of an independently rendered text under 4 option sets (also with a loose bbox "
+                "member on every object). Non-finite ordinates (NaN via constructors and null ordinates, +-Inf): Empty / Valid / NumPoints. "
+                "Decimal coordinates (1-15 decimals, sums that cancel): Rect() is (min, max) and Center() the float64 nearest to the exact "
+                "midpoint (rational arithmetic)" % BOUNDS[tier],
         "exhaustive": True,
         "samples": [{"generated_row": {"tree": row[1], "empty": row[2], "rect": row[3], "center_x2": row[4], "valid": row[5], "npoints": row[6]}},
                     {"recorded_event": events[-1]}],
+        "decimal_coordinate_cases": summ["float_cases"], "decimal_coordinate_mismatches": summ["float_mismatches"],
         "replayed_rows": summ["rows"], "objects_also_built_via_parse": summ["parsed_ok"], "replay_mismatches": summ["mismatches"],
         "events_judged_by_tlc": len(events), "mismatches_vs_L1": len(mism), "model_level_deviations_L2_vs_L1": devs,
         "known_finding_hits": v.known_hits,
